@@ -281,12 +281,12 @@ def main(argv=None):
     sites = []
     try:
         from pvf.pyvc.run import FAMILIES
-        import importlib, inspect, re as _re
+        import importlib as _il, inspect as _insp, re as _re
         for fam in prop.get('families', []):
-            mod = importlib.import_module(FAMILIES.get(fam, fam))
-            for m in [mod] + [v for v in vars(mod).values() if inspect.ismodule(v) and v.__name__.startswith('pvf.contracts')]:
+            mod = _il.import_module(FAMILIES.get(fam, fam))
+            for m in [mod] + [v for v in vars(mod).values() if _insp.ismodule(v) and v.__name__.startswith('pvf.contracts')]:
                 try:
-                    src = inspect.getsource(m)
+                    src = _insp.getsource(m)
                 except Exception:      # noqa
                     continue
                 n = len(_re.findall(r'\bI2?\.assume\(', src))
